@@ -77,9 +77,12 @@ fn err_bits(e: &str) -> Res {
 fn sphere_inputs(ops: &[POp]) -> HashMap<POp, V3> {
     let mut m = HashMap::new();
     for &op in ops {
-        let mut inst = DodecahedronProjection::new().unwrap();
         let q = plane_point(op);
-        let v = inst.inverse(Face::new(q[0], q[1]), op.face).map(subj::sph_to_vec).unwrap_or([0.0, 0.0, 1.0]);
+        let v = subj::guard(|| {
+            let mut inst = DodecahedronProjection::new()?;
+            inst.inverse(Face::new(q[0], q[1]), op.face).map(subj::sph_to_vec)
+        })
+        .unwrap_or([0.0, 0.0, 1.0]);
         m.insert(op, v);
     }
     m
@@ -134,10 +137,17 @@ pub fn memo_setup() -> (MemoCtx, Vec<Viol>) {
     let mut canon_s: Vec<Option<[u64; 9]>> = vec![None; 240];
     let mut out = Vec::new();
     for &op in &ops {
-        let mut inst = DodecahedronProjection::new().unwrap();
+        // a fresh instance that cannot be created is a history effect of the instances created before it
+        let (mut inst, mut inst2) = match (subj::guard(DodecahedronProjection::new), subj::guard(DodecahedronProjection::new)) {
+            (Ok(a), Ok(b)) => (a, b),
+            (Err(e), _) | (_, Err(e)) => {
+                out.push(viol("C13/op-error", format!("a fresh projection instance could not be created after {} earlier instances: {}", cold.len() * 2, e), json!({"kind": "memo_history", "ops": [op.json()]})));
+                cold.insert(op, err_bits(&e));
+                continue;
+            }
+        };
         let r = apply(&mut inst, op, &inputs);
         // a second fresh instance must give the same bits (determinism of the cold path)
-        let mut inst2 = DodecahedronProjection::new().unwrap();
         if apply(&mut inst2, op, &inputs) != r {
             out.push(viol("C13/cold-nondeterministic", "the same first call on two fresh instances gives different bits".into(), json!({"kind": "memo_history", "ops": [op.json()]})));
         }
@@ -171,6 +181,9 @@ pub fn memo_setup() -> (MemoCtx, Vec<Viol>) {
 /// run a history on a fresh instance; every result must equal its cold value; every filled slot must
 /// hold its canonical value
 pub fn check_history(ctx: &MemoCtx, hist: &[POp]) -> (Vec<u16>, Vec<Viol>) {
+    if crate::ev::flooded() {
+        return (vec![], vec![]);
+    }
     let mut out = Vec::new();
     let mut inst = match DodecahedronProjection::new() {
         Ok(i) => i,
@@ -208,6 +221,9 @@ pub fn check_history(ctx: &MemoCtx, hist: &[POp]) -> (Vec<u16>, Vec<Viol>) {
 
 /// step 4: BFS over memo states in a small universe of ops until closure
 fn bfs_universe(ctx: &MemoCtx, uni: &[POp]) -> (usize, usize, Vec<Viol>) {
+    if crate::ev::flooded() {
+        return (0, 0, vec![]);
+    }
     let mut seen: HashSet<Vec<u16>> = HashSet::new();
     let mut q: VecDeque<Vec<POp>> = VecDeque::new();
     let mut out = Vec::new();
@@ -239,6 +255,8 @@ pub enum AOp {
     Lookup(f64, f64, i32),
     Centre(u64),
     Boundary(u64, Option<i32>),
+    /// the same request as an open ring (closed_ring = false)
+    BoundaryOpen(u64, Option<i32>),
     Children(u64),
     Parent(u64),
     ChildrenTo(u64, i32),
@@ -263,6 +281,7 @@ impl AOp {
             AOp::Lookup(a, b, r) => json!({"f": "lonlat_to_cell", "lon": a, "lat": b, "res": r}),
             AOp::Centre(c) => json!({"f": "cell_to_lonlat", "id": subj::hex(*c)}),
             AOp::Boundary(c, n) => json!({"f": "cell_to_boundary", "id": subj::hex(*c), "segments": n}),
+            AOp::BoundaryOpen(c, n) => json!({"f": "cell_to_boundary", "id": subj::hex(*c), "segments": n, "closed_ring": false}),
             AOp::Children(c) => json!({"f": "cell_to_children", "id": subj::hex(*c)}),
             AOp::Parent(c) => json!({"f": "cell_to_parent", "id": subj::hex(*c)}),
             AOp::ChildrenTo(c, r) => json!({"f": "cell_to_children", "id": subj::hex(*c), "res": r}),
@@ -287,6 +306,7 @@ impl AOp {
         Some(match v["f"].as_str()? {
             "lonlat_to_cell" => AOp::Lookup(v["lon"].as_f64()?, v["lat"].as_f64()?, v["res"].as_i64()? as i32),
             "cell_to_lonlat" => AOp::Centre(id()?),
+            "cell_to_boundary" if v["closed_ring"] == false => AOp::BoundaryOpen(id()?, v["segments"].as_i64().map(|x| x as i32)),
             "cell_to_boundary" => AOp::Boundary(id()?, v["segments"].as_i64().map(|x| x as i32)),
             "cell_to_children" => match v["res"].as_i64() {
                 Some(r) => AOp::ChildrenTo(id()?, r as i32),
@@ -326,6 +346,7 @@ pub fn run_aop(op: &AOp) -> Res {
         AOp::Lookup(lon, lat, r) => a5::lonlat_to_cell(LonLat::new(*lon, *lat), *r).map(|c| vec![c]),
         AOp::Centre(c) => a5::cell_to_lonlat(*c).map(|l| vec![l.longitude().to_bits(), l.latitude().to_bits()]),
         AOp::Boundary(c, n) => a5::cell_to_boundary(*c, Some(a5::core::cell::CellToBoundaryOptions { closed_ring: true, segments: *n })).map(|v| v.iter().flat_map(|l| [l.longitude().to_bits(), l.latitude().to_bits()]).collect()),
+        AOp::BoundaryOpen(c, n) => a5::cell_to_boundary(*c, Some(a5::core::cell::CellToBoundaryOptions { closed_ring: false, segments: *n })).map(|v| v.iter().flat_map(|l| [l.longitude().to_bits(), l.latitude().to_bits()]).collect()),
         AOp::Children(c) => a5::cell_to_children(*c, None),
         AOp::Parent(c) => a5::cell_to_parent(*c, None).map(|p| vec![p]),
         AOp::ChildrenTo(c, r) => a5::cell_to_children(*c, Some(*r)),
@@ -384,6 +405,12 @@ pub fn api_ops() -> Vec<AOp> {
         ops.push(AOp::Boundary(c, Some(2)));
     }
     ops.push(AOp::Boundary(seamcell, None));
+    // the same request with one option toggled, and two functions handed the same argument bits
+    ops.push(AOp::BoundaryOpen(seamcell, None));
+    ops.push(AOp::BoundaryOpen(seamcell, Some(2)));
+    ops.push(AOp::BoundaryOpen(fine, Some(2)));
+    ops.push(AOp::Authalic(true, 0.9));
+    ops.push(AOp::Authalic(false, 0.9));
     ops.push(AOp::Children(seamcell));
     ops.push(AOp::Children(0));
     ops.push(AOp::Parent(fine));
@@ -445,7 +472,8 @@ pub fn api_ops() -> Vec<AOp> {
     }
     // a point that is exactly a cell vertex, looked up at several resolutions
     if let Ok(ring) = subj::boundary(seamcell, false, Some(1)) {
-        let (vlon, vlat) = ring[1];
+        // (a malformed ring is C11's subject; here it only must not stop the check)
+        let (vlon, vlat) = ring.get(1).copied().unwrap_or((12.5, 41.9));
         for r in [3, 6, 7, 14, 19, 21] {
             ops.push(AOp::Lookup(vlon, vlat, r));
         }
@@ -479,10 +507,11 @@ pub fn api_ops() -> Vec<AOp> {
     ops.push(AOp::Inv(3, qb));
     ops.push(AOp::Inv(3, qi));
     ops.push(AOp::Inv(7, qb));
-    let vb = {
-        let mut inst = DodecahedronProjection::new().unwrap();
-        inst.inverse(Face::new(qb[0], qb[1]), 3).map(subj::sph_to_vec).unwrap_or([0.0, 0.0, 1.0])
-    };
+    let vb = subj::guard(|| {
+        let mut inst = DodecahedronProjection::new()?;
+        inst.inverse(Face::new(qb[0], qb[1]), 3).map(subj::sph_to_vec)
+    })
+    .unwrap_or([0.0, 0.0, 1.0]);
     ops.push(AOp::Fwd(3, vb));
     ops.push(AOp::Fwd(7, vb));
     ops
@@ -590,6 +619,9 @@ pub fn track_histories() -> Vec<Vec<AOp>> {
 /// Oracle: a repeated call returns bit for bit what its first occurrence returned, and x / the filler return
 /// what they return as the first call of a fresh thread.
 pub fn long_history(name: &str, x: AOp, filler: AOp, keys: Vec<AOp>) -> (u64, Vec<Viol>) {
+    if crate::ev::flooded() {
+        return (0, vec![]);
+    }
     let (x2, f2) = (x.clone(), filler.clone());
     let cold_x = in_fresh_thread(move || run_aop(&x2));
     let cold_f = in_fresh_thread(move || run_aop(&f2));
@@ -733,6 +765,9 @@ pub fn long_families(quick: bool) -> Vec<(String, AOp, AOp, Vec<AOp>)> {
 /// some order, a scratch list) meets every later call. Each result must be bitwise equal to the cold
 /// result (the same call as the first call of a fresh thread). Returns (calls, violation).
 pub fn circuit(ops: &[AOp], upto: Option<usize>) -> (u64, Option<Viol>) {
+    if crate::ev::flooded() {
+        return (0, None);
+    }
     let cold: Vec<Res> = ops
         .iter()
         .map(|op| {
@@ -1225,7 +1260,7 @@ pub fn explore(
 ) {
     let mut stack: Vec<Vec<usize>> = vec![vec![]];
     while let Some(prefix) = stack.pop() {
-        if stats.executions >= cap {
+        if stats.executions >= cap || crate::ev::flooded() {
             break;
         }
         let x = runner(&prefix);
@@ -1792,7 +1827,14 @@ fn cold_reference(workers: &[Vec<AOp>]) -> Vec<Vec<Res>> {
 
 // ======================================================================== the check
 
+fn phase(t0: &std::time::Instant, name: &str) {
+    if std::env::var("A5_TIMING").is_ok() {
+        eprintln!("[C13 timing] {:>8.1}s  {}", t0.elapsed().as_secs_f64(), name);
+    }
+}
+
 pub fn run(tier: &str, verif_dir: &str) -> Report {
+    let t0 = std::time::Instant::now();
     let mut rep = Report::new("model_checking");
     let quick = tier == "quick";
     // ---------------- (a) memo machine
@@ -1819,6 +1861,7 @@ pub fn run(tier: &str, verif_dir: &str) -> Report {
         })
         .collect();
     rep.sink.extend(vs);
+    phase(&t0, "memo pairs done");
     // all triples within a sector class (ops that can touch the same face-triangle slots)
     let sectors: Vec<u8> = if quick { vec![4] } else { (0..10).collect() };
     for sct in sectors {
@@ -1842,6 +1885,7 @@ pub fn run(tier: &str, verif_dir: &str) -> Report {
             .collect();
         rep.sink.extend(vs);
     }
+    phase(&t0, "memo triples done");
     // full-state BFS in 2-face x 2-sector universes
     let mut bfs_states = 0usize;
     let mut bfs_trans = 0usize;
@@ -1872,6 +1916,7 @@ pub fn run(tier: &str, verif_dir: &str) -> Report {
         bfs_trans += t;
         rep.sink.extend(v);
     }
+    phase(&t0, "memo bfs done");
     // ---------------- API-level histories in fresh threads
     let aops = api_ops();
     let cold: Vec<Res> = aops
@@ -1891,6 +1936,9 @@ pub fn run(tier: &str, verif_dir: &str) -> Report {
     let n = aops.len();
     let api_hist = AtomicU64::new(0);
     let check_api = |idx: Vec<usize>| -> Vec<Viol> {
+        if crate::ev::flooded() {
+            return vec![];
+        }
         let ops: Vec<AOp> = idx.iter().map(|&i| aops[i].clone()).collect();
         let ops2 = ops.clone();
         let rs: Vec<Res> = in_fresh_thread(move || ops2.iter().map(run_aop).collect());
@@ -1909,6 +1957,7 @@ pub fn run(tier: &str, verif_dir: &str) -> Report {
     let pairs: Vec<Vec<usize>> = (0..n).flat_map(|a| (0..n).map(move |b| vec![a, b, a])).collect();
     let vs: Vec<Viol> = pairs.into_par_iter().flat_map(|p| check_api(p)).collect();
     rep.sink.extend(vs);
+    phase(&t0, "api pairs done");
     // tracks: short steps (1e-7 rad) across a line where the answer changes, in both directions
     let mut tracks = track_histories();
     tracks.extend(vertex_histories(if quick { 4 } else { 24 }));
@@ -1916,6 +1965,9 @@ pub fn run(tier: &str, verif_dir: &str) -> Report {
     let tv: Vec<Viol> = tracks
         .into_par_iter()
         .flat_map(|ops| {
+            if crate::ev::flooded() {
+                return vec![];
+            }
             let coldv: Vec<Res> = ops
                 .iter()
                 .map(|op| {
@@ -1940,6 +1992,7 @@ pub fn run(tier: &str, verif_dir: &str) -> Report {
         .collect();
     rep.sink.extend(tv);
     rep.set("track_histories", json!(ntracks));
+    phase(&t0, "tracks done");
     // pair circuits: all ordered pairs of a family of calls on one thread
     {
         let mut fams = lookup_neighbourhoods(quick);
@@ -1954,12 +2007,14 @@ pub fn run(tier: &str, verif_dir: &str) -> Report {
         rep.set("pair_circuits", json!({"families": fams.len(), "lookup_neighbourhoods": nneigh, "calls": calls, "largest_family": fams.iter().map(|f| f.len()).max().unwrap_or(0)}));
         api_hist.fetch_add(fams.iter().map(|f| (f.len() * f.len()) as u64).sum::<u64>(), Ordering::Relaxed);
     }
+    phase(&t0, "circuits done");
     // first histories in fresh processes
-    {
+    if !crate::ev::flooded() {
         let (procs, compared, v) = first_history_pass(verif_dir, quick);
         rep.sink.extend(v);
         rep.set("first_history_processes", json!({"preludes": procs, "results_compared": compared}));
     }
+    phase(&t0, "first-history done");
     // long histories (counter wraps, tables that fill up)
     {
         let mut calls = 0u64;
@@ -1974,6 +2029,7 @@ pub fn run(tier: &str, verif_dir: &str) -> Report {
         }
         rep.set("long_histories", json!({"families": nf, "calls": calls, "distinct_calls_per_family": 70000, "exact_gaps": [255, 256, 257, 1023, 1024, 1025, 4096, 65535, 65536, 65537]}));
     }
+    phase(&t0, "long histories done");
     let tn = if quick { 12.min(n) } else { n.min(60) };
     let tsel: Vec<usize> = (0..n).step_by((n / tn).max(1)).take(tn).collect();
     let triples: Vec<Vec<usize>> = tsel.iter().flat_map(|&a| tsel.iter().flat_map(move |&b| (0..n).map(move |c| vec![a, b, c]))).collect();
@@ -1981,6 +2037,7 @@ pub fn run(tier: &str, verif_dir: &str) -> Report {
     let vs: Vec<Viol> = triples.into_par_iter().flat_map(|p| check_api(p)).collect();
     rep.sink.extend(vs);
 
+    phase(&t0, "api triples done");
     // ---------------- (b) schedules
     let mut sched_out: Vec<Viol> = Vec::new();
     let mut sstats = SchedStats { executions: 0, max_points: 0, with_preemption: 0, outcomes: HashSet::new(), attributions: HashSet::new() };
@@ -2034,10 +2091,11 @@ pub fn run(tier: &str, verif_dir: &str) -> Report {
     }
     rep.sink.extend(sched_out);
     a5::verif::install(noop_hook);
+    phase(&t0, "schedules done");
     // ---------------- auxiliary free-running pass (fresh processes, real concurrency; see above)
     let mut aux_children = 0u64;
     let mut aux_failed_children = 0u64;
-    {
+    if !crate::ev::flooded() {
         let alpha = race_alphabet();
         let coldv: Vec<Res> = alpha
             .iter()
@@ -2093,8 +2151,9 @@ pub fn run(tier: &str, verif_dir: &str) -> Report {
             }
         }
     }
+    phase(&t0, "aux done");
     // ---------------- Miri schedule pass
-    let (mst, mv) = miri_pass(verif_dir, quick);
+    let (mst, mv) = if crate::ev::flooded() { (MiriStats { available: false, assignments: 0, seeds_per_assignment: 0, reports: vec!["skipped: the check had already recorded thousands of violations".into()] }, vec![]) } else { miri_pass(verif_dir, quick) };
     rep.sink.extend(mv);
     for r in &mst.reports {
         println!("NOTE (Miri, not a verdict): {}", r);
@@ -2103,6 +2162,7 @@ pub fn run(tier: &str, verif_dir: &str) -> Report {
     rep.set("auxiliary_free_running_children", json!(aux_children));
     rep.set("auxiliary_children_without_output", json!(aux_failed_children));
 
+    phase(&t0, "miri done");
     let nstates = states.lock().unwrap().len() + bfs_states;
     let h = histories.load(Ordering::Relaxed);
     rep.set("states", json!(nstates as u64));
